@@ -173,7 +173,11 @@ def stock(sc):
         mdl = ss.models[mname]
         if mdl.n == 0:
             return dict(sid=sc["sid"], skipped="no device")
-        mdl.__dict__[pname].v[0] = val
+        if sc.get("set_all"):
+            for k_ in range(mdl.n):
+                mdl.__dict__[pname].v[k_] = val
+        else:
+            mdl.__dict__[pname].v[0] = val
         ss.setup()
     else:
         ss = load_case(sc["case"], **kw)
